@@ -7,7 +7,9 @@ package hybrid
 // single-fault enumeration (every tier call of every thread fails once).
 
 import (
+	"encoding/json"
 	"fmt"
+	"os"
 	"sort"
 	"strings"
 	"sync"
@@ -248,8 +250,83 @@ func c14RunScenario(run *vk.Run, sc *c14Scenario, b c14Budget, agg *c14Agg) {
 	}
 }
 
+// c14FollowChooser replays a recorded schedule (sequence of thread names).
+type c14FollowChooser struct {
+	order []string
+	pos   int
+}
+
+func (c *c14FollowChooser) Choose(enabled []string, _ []string, cur int) int {
+	for c.pos < len(c.order) {
+		want := c.order[c.pos]
+		c.pos++
+		for i, n := range enabled {
+			if n == want {
+				return i
+			}
+		}
+	}
+	if cur >= 0 {
+		return cur
+	}
+	return 0
+}
+
+// c14Replay re-executes the scenario/fault/schedule stored in a replay file written by vcheck.
+func c14Replay(run *vk.Run, scs []*c14Scenario, agg *c14Agg) {
+	p := os.Getenv("VERIF_REPLAY")
+	if p == "" {
+		return
+	}
+	b, err := os.ReadFile(p)
+	if err != nil {
+		return
+	}
+	var rf struct {
+		Test      string `json:"test"`
+		Signature string `json:"signature"`
+		Detail    struct {
+			Scenario struct {
+				ID string `json:"id"`
+			} `json:"scenario"`
+			Fault    *c14Fault `json:"fault"`
+			Schedule []string  `json:"schedule"`
+		} `json:"detail"`
+	}
+	if json.Unmarshal(b, &rf) != nil || rf.Test != run.Name {
+		return
+	}
+	for _, sc := range scs {
+		if sc.ID != rf.Detail.Scenario.ID {
+			continue
+		}
+		var order []string
+		for _, e := range rf.Detail.Schedule {
+			if at := strings.IndexByte(e, '@'); at > 0 {
+				order = append(order, e[:at])
+			}
+		}
+		s := vk.NewSched(&c14FollowChooser{order: order})
+		w := sc.start(s, rf.Detail.Fault)
+		ok := s.Run(400)
+		s.Stop()
+		out := sc.finish(w, s, ok)
+		agg.add(sc, rf.Detail.Fault, s, out)
+		run.Count("replayed", 1)
+		reproduced := false
+		for _, sig := range out.Sigs {
+			if sig == rf.Signature {
+				reproduced = true
+			}
+		}
+		run.Observe("replay", map[string]any{"scenario": sc.ID, "fault": rf.Detail.Fault, "wanted": rf.Signature,
+			"reproduced": reproduced, "signatures": out.Sigs, "schedule": s.Trace()})
+	}
+}
+
 func c14Drive(t *testing.T, run *vk.Run, scs []*c14Scenario, b c14Budget) *c14Agg {
 	agg := &c14Agg{run: run, seenSig: map[string]bool{}, sigScen: map[string]map[string]bool{}}
+	c14Replay(run, scs, agg)
 	const workers = 6
 	ch := make(chan *c14Scenario)
 	var wg sync.WaitGroup
@@ -268,6 +345,11 @@ func c14Drive(t *testing.T, run *vk.Run, scs []*c14Scenario, b c14Budget) *c14Ag
 	close(ch)
 	wg.Wait()
 	run.Count("scenarios", int64(len(scs)))
+	keys := map[string]bool{}
+	for _, sc := range scs {
+		keys[sc.Key] = true
+	}
+	run.Count("key_prefixes_covered", int64(len(keys)))
 	wit := map[string][]string{}
 	for sig, m := range agg.sigScen {
 		for k := range m {
@@ -298,13 +380,14 @@ func TestVerifC14Register(t *testing.T) {
 	run := vk.Start(t, "C14", "register-linearizability")
 	defer run.Finish()
 	run.Rule(c14Rule + "; oracle: porcupine register-with-delete over logical-time history incl. epilogue probes on both nodes; tier-routing monitor")
-	b := c14Budget{explore: run.Pick(60, 2000), random: run.Pick(6, 60), faultExplore: run.Pick(3, 40), faultRandom: run.Pick(1, 6)}
+	b := c14Budget{explore: run.Pick(60, 3000), random: run.Pick(6, 100), faultExplore: run.Pick(3, 200), faultRandom: run.Pick(1, 10)}
 	scs := c14Scenarios(c14RegTmpls, false)
 	c14Drive(t, run, scs, b)
 	run.Floor("runs_judged", int64(run.Pick(5000, 50000)))
 	run.Floor("fault_hits", 500)
 	run.Floor("cross_node_reads", 500)
 	run.Floor("route_ops_checked", 5000)
+	run.Floor("key_prefixes_covered", 36)
 	run.Floor("window_miss_then_mutation|persistent", 1)
 	run.Floor("window_miss_then_mutation|sharedpersistent", 1)
 }
@@ -314,7 +397,7 @@ func TestVerifC14List(t *testing.T) {
 	run := vk.Start(t, "C14", "list-updates")
 	defer run.Finish()
 	run.Rule(c14Rule + "; oracle: after quiescence every member appended by a call that returned nil is present on every probed node, every removed one absent, initial members kept; concurrent GetList must hold all members whose append had returned; tier-routing monitor")
-	b := c14Budget{explore: run.Pick(60, 2000), random: run.Pick(6, 60), faultExplore: run.Pick(3, 40), faultRandom: run.Pick(1, 6)}
+	b := c14Budget{explore: run.Pick(60, 3000), random: run.Pick(6, 100), faultExplore: run.Pick(3, 200), faultRandom: run.Pick(1, 10)}
 	scs := c14Scenarios(c14ListTmpls, true)
 	c14Drive(t, run, scs, b)
 	run.Floor("runs_judged", int64(run.Pick(4000, 40000)))
